@@ -106,6 +106,46 @@ pub fn run(rep: &mut StageReport, tier: &str, _seed: u64) {
             v.push(("raw: no client certificate → server B".to_string(), false, raw_attempt(sb.addr, &read_der(&b.client_ca()).unwrap(), ClientIdentity::None, &t(11)).await));
             v.push(("raw: self-signed client cert → server B".to_string(), false, raw_attempt(sb.addr, &read_der(&b.client_ca()).unwrap(), id_ss.clone(), &t(12)).await));
             let _ = id_srv; // (a server certificate used as client identity chains to the CA: the statement does not decide this cell)
+            // --- untrusted client certificates with unusual validity periods: whatever their dates say, they do not
+            // chain to the server's CA (self-signed, or signed by a CA minted here that nobody trusts)
+            {
+                use time::{Duration as TD, OffsetDateTime};
+                let now = OffsetDateTime::now_utc();
+                let mint = |from: OffsetDateTime, to: OffsetDateTime, signed_by_unknown_ca: bool| -> Option<ClientIdentity> {
+                    let mut p = rcgen::CertificateParams::new(vec!["localhost".to_string()]);
+                    p.not_before = from;
+                    p.not_after = to;
+                    let leaf = rcgen::Certificate::from_params(p).ok()?;
+                    let key = leaf.serialize_private_key_der();
+                    let der = if signed_by_unknown_ca {
+                        let mut cp = rcgen::CertificateParams::new(vec![]);
+                        cp.is_ca = rcgen::IsCa::Ca(rcgen::BasicConstraints::Unconstrained);
+                        let ca = rcgen::Certificate::from_params(cp).ok()?;
+                        leaf.serialize_der_with_signer(&ca).ok()?
+                    } else {
+                        leaf.serialize_der().ok()?
+                    };
+                    Some(ClientIdentity::Cert(der, key))
+                };
+                let periods: Vec<(&str, OffsetDateTime, OffsetDateTime)> = vec![
+                    ("valid for the last two hours until one hour ago", now - TD::hours(2), now - TD::hours(1)),
+                    ("expired one minute ago", now - TD::days(30), now - TD::minutes(1)),
+                    ("expired 23 hours ago", now - TD::days(30), now - TD::hours(23)),
+                    ("expired 25 hours ago", now - TD::days(30), now - TD::hours(25)),
+                    ("expired a year ago", now - TD::days(800), now - TD::days(365)),
+                    ("not valid before tomorrow", now + TD::days(1), now + TD::days(30)),
+                    ("minted already expired (not_after before not_before)", now - TD::hours(1), now - TD::hours(2)),
+                ];
+                let mut cell = 40u32;
+                for (what, from, to) in periods {
+                    for unknown_ca in [false, true] {
+                        cell += 1;
+                        if let Some(id) = mint(from, to, unknown_ca) {
+                            v.push((format!("raw: {} client cert, {} → server A", if unknown_ca { "unknown-CA" } else { "self-signed" }, what), false, raw_attempt(sa.addr, &ca_a, id, &t(cell)).await));
+                        }
+                    }
+                }
+            }
             // --- server started from PEM files whose certificate file is a chain: [its leaf (from CA-A), CA-B's
             // certificate]. Extra certificates in the server's own chain file must not widen whom it trusts.
             let pem_dir = scratch_dir().join(format!("pem-{}", round));
